@@ -46,7 +46,9 @@ func registerRead(ctx *Context, forward Forward, reg RegisterType, sequenceID in
 		return v
 	}
 
-	if v, exists := ctx.Transaction[reg]; exists {
+	// As with the RAT, when a sequence ID is provided we make sure not to read
+	// a register value written by an instruction following the current one
+	if v, exists := ctx.Transaction[reg]; exists && (sequenceID == 0 || v.sequenceID <= sequenceID) {
 		return v.value
 	}
 	return ctx.Registers[reg]
